@@ -163,6 +163,14 @@ class Repartition(Expr):
             raise NotImplementedError()
 
     def _simplify_up(self, parent, dependents):
+        if (
+            "partition_size" in self._parameters
+            and self.operand("partition_size") is not None
+        ):
+            # the partitions are cut by the memory usage of the frame: on a
+            # filtered or projected frame other partitions would come out
+            # than the ones npartitions and divisions describe
+            return
         if isinstance(parent, Filter) and self._filter_passthrough_available(
             parent, dependents
         ):
